@@ -120,6 +120,10 @@ def run_ip(job, ctx):
                     ip_complete(m, padded, a, ctx, 'ipv4-zero-padded', ['{}', 'ip {}'])
     elif part == 'v6':
         n = 700 if ctx.tier == 'quick' else 15000
+        # addresses without any decimal digit, the extremes, and texts that contain no digit at all
+        for sp in ('::', '::1', 'ffff:ffff:ffff:ffff:ffff:ffff:ffff:ffff', 'dead:beef::cafe', 'ff::a', '::ffff', 'fe::', 'DEAD:BEEF::CAFE', 'abcd:ef::', '::face', 'a::b', '0::0',
+                   '0:0:0:0:0:0:0:0', '1::', 'fe80::1'):
+            ip_complete(m, sp, ipaddress.ip_address(sp), ctx, 'ipv6-special', ['{}', 'my address is {} ok', 'ping {} now', '({})'])
         for _ in range(n):
             hs = [r.getrandbits(16) for _ in range(8)]
             k = r.random()
